@@ -75,6 +75,12 @@ func (ex *executor) contractFor(callee *ssa.Function) *Contract {
 	if c := ex.eng.cs.Funcs[k]; c != nil {
 		return c
 	}
+	// instance of a generic function: the contract is written on the generic origin
+	if o := callee.Origin(); o != nil && o != callee {
+		if c := ex.eng.cs.Funcs[fnKey(o)]; c != nil {
+			return c
+		}
+	}
 	// package-wide assumed contract: "pkg/path.*"
 	if c := ex.eng.cs.Funcs[pkgOfKey(k)+".*"]; c != nil {
 		return c
